@@ -67,13 +67,131 @@ def slot_search(t, i, type_, name):
     return slot_search(t, i + 1, type_, name)
 
 
-@recursive(['Ref[info.SectionType]', 'int'], 'bool')
-def children_wf(t, i):
-    """Representation invariant of a section type, from child i on: a child without a
-    key is a section slot (only sections may be unnamed), and every child has an attribute."""
+def is_wildcard_key(ci):
+    """A '+' key or multikey (a wildcard: any key name not otherwise declared)."""
+    return ci.name == '+' and not isa(ci, 'info.SectionInfo')
+
+
+def child_wf(key, ci):
+    """Representation invariant of one child (key, info) of a section type: it has an
+    attribute; a child without a key is a section slot (only sections may be unnamed); a key
+    child is filed under its own name ('+' for a wildcard key)."""
+    return (ci.attribute is not None and ((key is not None and key != '') or isa(ci, 'info.SectionInfo'))
+            and (isa(ci, 'info.SectionInfo') or key == ci.name))
+
+
+def slot_ok(ci, values):
+    """Matcher invariant for one child: the slot of its attribute exists and has the
+    shape the kind of child demands (wildcard key -> mapping, multi -> list, else single)."""
+    if ci.attribute is None:
+        return False
+    a = val(ci.attribute)
+    if a not in values:
+        return False
+    s = values[a]
+    if is_wildcard_key(ci):
+        return is_alt(s, 'kmap')
+    if ci.maxOccurs > 1:
+        return is_alt(s, 'lst')
+    return is_alt(s, 'none') or is_alt(s, 'vi') or is_alt(s, 'sv') or is_alt(s, 'pv')
+
+
+def slot_empty(ci, values):
+    """The slot of child ci as a fresh matcher has it: an empty mapping for a wildcard key,
+    an empty list for a multikey / multisection, nothing for a single key / section."""
+    if ci.attribute is None:
+        return False
+    a = val(ci.attribute)
+    if a not in values:
+        return False
+    s = values[a]
+    if is_wildcard_key(ci):
+        return is_alt(s, 'kmap') and len(alt(s, 'kmap')) == 0
+    if ci.maxOccurs > 1:
+        return is_alt(s, 'lst') and len(alt(s, 'lst')) == 0
+    return is_alt(s, 'none')
+
+
+@recursive(['Ref[info.SectionType]', 'int', 'str', 'Opt[Tuple[Opt[str], Ref[info.BaseInfo]]]'],
+           'Opt[Tuple[Opt[str], Ref[info.BaseInfo]]]')
+def key_search(t, i, rk, arb):
+    """C01 key routing: the child of section type t that takes the (normalised) key rk,
+    searching the children from index i on: the first child whose key is rk; failing that,
+    the wildcard key ('+' key or multikey) - arb is the wildcard met so far; None if neither."""
     if i >= len(t._children):
+        return arb
+    if t._children[i][0] == rk:
+        return t._children[i]
+    if is_wildcard_key(t._children[i][1]):
+        return key_search(t, i + 1, rk, t._children[i])
+    return key_search(t, i + 1, rk, arb)
+
+
+def key_rejected(k, ci, slot, rk):
+    """C01: the key line is refused although a child takes the key: the name is a
+    section's name, a single-valued key already has a value, a multikey is full, or a
+    single-valued wildcard key already has this key."""
+    if isa(ci, 'info.SectionInfo'):
         return True
-    k = t._children[i][0]
-    c = t._children[i][1]
-    ok = ((k is not None and k != '') or isa(c, 'info.SectionInfo')) and c.attribute is not None
-    return ok and children_wf(t, i + 1)
+    if is_alt(slot, 'none'):
+        return False
+    if not (ci.maxOccurs > 1):
+        if k != '+':
+            return True
+        return rk in alt(slot, 'kmap')
+    return len_slot(slot) == ci.maxOccurs
+
+
+def len_slot(slot):
+    if is_alt(slot, 'lst'):
+        return len(alt(slot, 'lst'))
+    if is_alt(slot, 'kmap'):
+        return len(alt(slot, 'kmap'))
+    return 0
+
+
+def slot_after_add(old, new, k, ci, rk, value, position):
+    """C01/C02/C08: what the slot of the receiving child holds after a key line: a new
+    ValueInfo with exactly the value text and the position of the line - as the single
+    value, appended to the list (file order), or under the normalised key in the mapping
+    (appended to that key's list for a wildcard multikey)."""
+    if k == '+':
+        m0 = alt(old, 'kmap')
+        m1 = alt(new, 'kmap')
+        if ci.maxOccurs > 1:
+            e = m1[rk]
+            if rk in m0:
+                o = alt(m0[rk], 'lst')
+                n = alt(e, 'lst')
+                return (is_alt(new, 'kmap') and is_alt(e, 'lst') and len(n) == len(o) + 1 and n[:-1] == o
+                        and is_alt(n[-1], 'vi') and alt(n[-1], 'vi').value == value
+                        and alt(n[-1], 'vi').position == position and m1 == updated(m0, rk, e))
+            n = alt(e, 'lst')
+            return (is_alt(new, 'kmap') and is_alt(e, 'lst') and len(n) == 1
+                    and is_alt(n[0], 'vi') and alt(n[0], 'vi').value == value
+                    and alt(n[0], 'vi').position == position and m1 == updated(m0, rk, e))
+        e = m1[rk]
+        return (is_alt(new, 'kmap') and is_alt(e, 'vi') and alt(e, 'vi').value == value
+                and alt(e, 'vi').position == position and m1 == updated(m0, rk, e))
+    if ci.maxOccurs > 1:
+        o = alt(old, 'lst')
+        n = alt(new, 'lst')
+        return (is_alt(new, 'lst') and len(n) == len(o) + 1 and n[:-1] == o and is_alt(n[-1], 'vi')
+                and alt(n[-1], 'vi').value == value and alt(n[-1], 'vi').position == position)
+    return is_alt(new, 'vi') and alt(new, 'vi').value == value and alt(new, 'vi').position == position
+
+
+def entry_ok(ci, values, x):
+    """Matcher invariant for the entries of a wildcard key's mapping: under key x a
+    wildcard multikey keeps a list, a wildcard key a single value."""
+    if not is_wildcard_key(ci) or ci.attribute is None:
+        return True
+    a = val(ci.attribute)
+    if a not in values or not is_alt(values[a], 'kmap'):
+        return True
+    m = alt(values[a], 'kmap')
+    if x not in m:
+        return True
+    if ci.maxOccurs > 1:
+        return is_alt(m[x], 'lst')
+    return not is_alt(m[x], 'lst')
